@@ -17,6 +17,12 @@
 struct verif_in {
 	data_off_t size;
 	block_off_t pos;
+	/* file_copy */
+	block_off_t blockmax;
+	int hash_size;
+	unsigned char srchash[3 * 16], dsthash[3 * 16];
+	unsigned srcstate[3], dststate[3];
+	unsigned dstflag;
 };
 VERIF_DECLARE_IN
 
@@ -71,6 +77,55 @@ void h_file2block_guard(void)
 	b = fs_file2block_get(&F, IN.pos);
 	VERIF_ASSERT(IN.pos < F.blockmax, "fs_file2block_get returns only for a position inside the file's block vector");
 	VERIF_ASSERT((unsigned char *)b == vec + (size_t)IN.pos * block_sizeof(), "fs_file2block_get returns the block at that position");
+	VERIF_CANARY();
+}
+
+
+/*
+ * file_copy (copy detection, C19): the destination inherits the hashes of the source ONLY provisionally - every block of
+ * the destination becomes REP (hash known, parity NOT valid: sync will read and hash the data before recording the stripe),
+ * never BLK, with the hash of the same-numbered source block; the file is flagged as a copy.  Bounded: <= 3 blocks.
+ */
+void h_file_copy(void)
+{
+	static struct snapraid_file S, D;
+	static unsigned char SV[3 * 64], DV[3 * 64];
+	block_off_t i;
+	int k;
+	VERIF_INPUTS();
+	VERIF_ASSUME(IN.blockmax <= 3);
+#ifndef HASH_SZ
+#define HASH_SZ 16
+#endif
+	VERIF_ASSUME(IN.hash_size == HASH_SZ); /* concrete per obligation: a memcpy of symbolic length is out of reach */
+	BLOCK_HASH_SIZE = HASH_SZ;
+	VERIF_ASSUME(sizeof(struct snapraid_block) + 16 <= 64);
+	S.size = D.size = IN.size;
+	S.mtime_sec = D.mtime_sec = 5;
+	S.mtime_nsec = D.mtime_nsec = 7;
+	S.blockmax = D.blockmax = IN.blockmax;
+	S.blockvec = (struct snapraid_block *)SV;
+	D.blockvec = (struct snapraid_block *)DV;
+	D.flag = IN.dstflag & ~FILE_IS_COPY;
+	for (i = 0; i < 3; ++i) {
+		VERIF_ASSUME(IN.srcstate[i] == BLOCK_STATE_BLK || IN.srcstate[i] == BLOCK_STATE_REP);
+		block_state_set(file_block(&S, i), IN.srcstate[i]);
+		block_state_set(file_block(&D, i), IN.dststate[i] & 7);
+		for (k = 0; k < 16; ++k) {
+			file_block(&S, i)->hash[k] = IN.srchash[i * 16 + k];
+			file_block(&D, i)->hash[k] = IN.dsthash[i * 16 + k];
+		}
+	}
+	file_copy(&S, &D);
+	for (i = 0; i < 3; ++i)
+		if (i < IN.blockmax) {
+			VERIF_ASSERT(block_state_get(file_block(&D, i)) == BLOCK_STATE_REP, "an inherited hash is provisional: the block is REP (parity not valid), never BLK");
+			for (k = 0; k < 16; ++k)
+				if (k < IN.hash_size)
+					VERIF_ASSERT(file_block(&D, i)->hash[k] == IN.srchash[i * 16 + k], "block i inherits the hash of block i of the source");
+			VERIF_ASSERT(block_state_get(file_block(&S, i)) == IN.srcstate[i], "the source is left alone");
+		}
+	VERIF_ASSERT(D.flag == ((IN.dstflag & ~FILE_IS_COPY) | FILE_IS_COPY), "the destination is flagged as a copy");
 	VERIF_CANARY();
 }
 
